@@ -19,7 +19,4 @@ pub mod topic {
 pub mod mock;
 #[cfg(kani)]
 mod pubsub_t;
-#[cfg(kani)]
-pub mod reqrep_mock;
-#[cfg(kani)]
-mod reqrep_t;
+// (reqrep harness modules temporarily detached)
